@@ -333,8 +333,20 @@ func (os *outboxStorage) maybeProcessOutboxEntries(ctx context.Context) {
 		switch entry.Operation {
 		case storageOutboxEntry.CreateBucketStorageOperation:
 			err = os.innerStorage.CreateBucket(ctx, entry.Bucket)
+			// Entries are applied at least once: an entry whose effect was
+			// committed but that could not be finalized (crash, shutdown, lost
+			// claim) is replayed. The bucket being there already is the outcome
+			// this entry asks for; retrying could never succeed and would block
+			// every entry queued behind it.
+			if errors.Is(err, storage.ErrBucketAlreadyExists) {
+				err = nil
+			}
 		case storageOutboxEntry.DeleteBucketStorageOperation:
 			err = os.innerStorage.DeleteBucket(ctx, entry.Bucket)
+			// Same for a bucket that is already gone.
+			if errors.Is(err, storage.ErrNoSuchBucket) {
+				err = nil
+			}
 		case storageOutboxEntry.PutObjectStorageOperation:
 			// Wrap the concatenated chunks in a seekable reader: an S3 backend (s3client)
 			// needs to seek the body to compute the request checksum when the connection
